@@ -28,6 +28,86 @@ def load_baseline() -> Set[str]:
     return {l.strip() for l in BASELINE_FILE.read_text().splitlines() if l.strip() and not l.startswith("#")}
 
 
+def load_baseline_sigs() -> Dict[str, List[str]]:
+    out: Dict[str, List[str]] = {}
+    if not BASELINE_FILE.exists():
+        return out
+    for l in BASELINE_FILE.read_text().splitlines():
+        if l.startswith("sig:") and "=" in l:
+            q, ps = l[4:].split("=", 1)
+            out[q.strip()] = [x for x in ps.strip().split(",") if x]
+    return out
+
+
+def restore_parameter_names(trees: Dict[str, ast.Module]) -> List[Tuple[str, str, str]]:
+    """A pinned function whose parameter was renamed (same number of parameters; the names that still exist keep their
+    meaning; exactly one pinned name and one current name are left over, or the left-over names sit at the same positions)
+    is spelled with the pinned name again - in its body and in the keywords of its calls.  The order of the parameters
+    needs nothing: the rules bind arguments by name."""
+    sigs = load_baseline_sigs()
+    done: List[Tuple[str, str, str]] = []
+    if not sigs:
+        return done
+    fns: List[Tuple[str, ast.FunctionDef]] = []
+    for m, tree in trees.items():
+        for st in tree.body:
+            if isinstance(st, ast.FunctionDef):
+                fns.append((f"{m}.{st.name}", st))
+            elif isinstance(st, ast.ClassDef):
+                for x in st.body:
+                    if isinstance(x, ast.FunctionDef) and not any(isinstance(d, ast.Attribute) and d.attr in ("setter", "deleter") for d in x.decorator_list):
+                        fns.append((f"{m}.{st.name}.{x.name}", x))
+    renames: Dict[str, Dict[str, str]] = {}          # function name -> {current: pinned}
+    all_params: Dict[str, Set[str]] = {}
+    for q, fn in fns:
+        all_params.setdefault(fn.name, set()).update(a.arg for a in fn.args.posonlyargs + fn.args.args + fn.args.kwonlyargs)
+    for q, fn in fns:
+        old = sigs.get(q)
+        if old is None:
+            continue
+        argnodes = fn.args.posonlyargs + fn.args.args + fn.args.kwonlyargs
+        cur = [a.arg for a in argnodes]
+        if cur == old or len(cur) != len(old) or sorted(cur) == sorted(old):
+            continue
+        gone = [o for o in old if o not in cur]
+        came = [c for c in cur if c not in old]
+        if len(gone) != len(came):
+            continue
+        if len(gone) == 1:
+            mp = {came[0]: gone[0]}
+        elif all(cur.index(c) == old.index(o) for c, o in zip(came, gone)):
+            mp = dict(zip(came, gone))
+        else:
+            continue
+        # the pinned names must be free in the function
+        used = {x.id for x in ast.walk(fn) if isinstance(x, ast.Name)}
+        if used & set(mp.values()):
+            continue
+        if any(isinstance(x, (ast.FunctionDef, ast.Lambda, ast.ClassDef)) for b in fn.body for x in ast.walk(b)):
+            continue        # nested scopes are left alone
+        for a in argnodes:
+            if a.arg in mp:
+                a.arg = mp[a.arg]
+        for x in ast.walk(fn):
+            if isinstance(x, ast.Name) and x.id in mp:
+                x.id = mp[x.id]
+        for c, o in mp.items():
+            done.append((q, c, o))
+        if sum(1 for q2, f2 in fns if f2.name == fn.name) == 1:
+            renames[fn.name] = mp
+    if renames:
+        for tree in trees.values():
+            for c in ast.walk(tree):
+                if isinstance(c, ast.Call):
+                    nm = c.func.id if isinstance(c.func, ast.Name) else (c.func.attr if isinstance(c.func, ast.Attribute) else None)
+                    mp = renames.get(nm)
+                    if mp:
+                        for k in c.keywords:
+                            if k.arg in mp:
+                                k.arg = mp[k.arg]
+    return done
+
+
 # ----------------------------------------------------------------------------- helper classification
 class Helper:
     def __init__(self, qual: str, node: ast.FunctionDef, cls: Optional[str], kind: str, scope: Optional[str] = None):
@@ -1431,6 +1511,153 @@ def _desugar_methodcaller(fn: ast.AST) -> int:
     return n
 
 
+def _attr_chain_root(e: ast.AST) -> Optional[str]:
+    n = 0
+    while isinstance(e, ast.Attribute):
+        e = e.value
+        n += 1
+    return e.id if (n and isinstance(e, ast.Name)) else None
+
+
+def _propagate_attr_aliases(fn: ast.AST) -> int:
+    """`x = self.a` (x bound once; `a` stored nowhere in the function; no method of `self` called and `self` not passed on
+    between the binding and the last use, all in one block): every use of x is a use of `self.a`."""
+    if not isinstance(fn, (ast.FunctionDef, ast.AsyncFunctionDef)):
+        return 0
+    n = 0
+    params = {a.arg for a in fn.args.args + fn.args.kwonlyargs + fn.args.posonlyargs}
+    stored_attrs = {x.attr for x in ast.walk(fn) if isinstance(x, ast.Attribute) and isinstance(x.ctx, (ast.Store, ast.Del))}
+    stored_attrs |= {st.target.attr for st in ast.walk(fn) if isinstance(st, ast.AugAssign) and isinstance(st.target, ast.Attribute)}
+    store_count: Dict[str, int] = {}
+    for x in ast.walk(fn):
+        if isinstance(x, ast.Name) and isinstance(x.ctx, (ast.Store, ast.Del)):
+            store_count[x.id] = store_count.get(x.id, 0) + 1
+    scoped = {nm for x in ast.walk(fn) if isinstance(x, (ast.Global, ast.Nonlocal)) for nm in x.names}
+
+    def blocks(node):
+        for fld in ("body", "orelse", "finalbody"):
+            sub = getattr(node, fld, None)
+            if isinstance(sub, list) and sub and isinstance(sub[0], ast.stmt):
+                yield sub
+                for st in sub:
+                    if not isinstance(st, (ast.FunctionDef, ast.AsyncFunctionDef, ast.ClassDef)):
+                        yield from blocks(st)
+        for h in getattr(node, "handlers", []) or []:
+            yield from blocks(h)
+    changed = True
+    while changed:
+        changed = False
+        for block in list(blocks(fn)):
+            for i, st in enumerate(block):
+                if not (isinstance(st, ast.Assign) and len(st.targets) == 1 and isinstance(st.targets[0], ast.Name)):
+                    continue
+                x = st.targets[0].id
+                root = _attr_chain_root(st.value)
+                if root is None or x in params or x in scoped or store_count.get(x) != 1 or root == x:
+                    continue
+                if root != "self" or root not in params or store_count.get(root):
+                    continue
+                chain_attrs = {a.attr for a in ast.walk(st.value) if isinstance(a, ast.Attribute)}
+                if chain_attrs & stored_attrs:
+                    continue
+                total = [y for y in ast.walk(fn) if isinstance(y, ast.Name) and y.id == x and isinstance(y.ctx, ast.Load)]
+                after = [(j, y) for j, s2 in enumerate(block[i + 1:], i + 1) for y in ast.walk(s2) if isinstance(y, ast.Name) and y.id == x and isinstance(y.ctx, ast.Load)]
+                if not total or len(total) != len(after):
+                    continue
+                if any(isinstance(y, (ast.Lambda, ast.FunctionDef)) and any(isinstance(z, ast.Name) and z.id == x for z in ast.walk(y)) for s2 in block[i + 1:] for y in ast.walk(s2)):
+                    continue
+                last = max(j for j, _ in after)
+                risky = False
+                for s2 in block[i + 1:last + 1]:
+                    for c in ast.walk(s2):
+                        if isinstance(c, ast.Call):
+                            if isinstance(c.func, ast.Attribute) and _attr_chain_root(c.func) == root:
+                                risky = True
+                            if any(isinstance(a, ast.Name) and a.id == root for a in list(c.args) + [k.value for k in c.keywords]):
+                                risky = True
+                        if isinstance(c, (ast.Yield, ast.YieldFrom, ast.Await)):
+                            risky = True
+                if risky:
+                    continue
+                m = {x: st.value}
+                for j in range(i + 1, last + 1):
+                    block[j] = _SubstNames(m).visit(block[j])
+                del block[i]
+                n += 1
+                changed = True
+                break
+            if changed:
+                break
+    return n
+
+
+_CMP = {ast.Eq: lambda a, b: a == b, ast.NotEq: lambda a, b: a != b, ast.Lt: lambda a, b: a < b, ast.LtE: lambda a, b: a <= b,
+        ast.Gt: lambda a, b: a > b, ast.GtE: lambda a, b: a >= b}
+
+
+def _const_truth(e: ast.AST) -> Optional[bool]:
+    """Truth of a test made of literals only (what is left of `if kind == "a":` once a helper was spelled out for kind="a")."""
+    if isinstance(e, ast.Constant) and (e.value is None or isinstance(e.value, (bool, int, float, str))):
+        return bool(e.value)
+    if isinstance(e, ast.UnaryOp) and isinstance(e.op, ast.Not):
+        t = _const_truth(e.operand)
+        return None if t is None else not t
+    if isinstance(e, ast.BoolOp):
+        ts = [_const_truth(v) for v in e.values]
+        if isinstance(e.op, ast.And):
+            return False if any(t is False for t in ts) else (True if all(t is True for t in ts) else None)
+        return True if any(t is True for t in ts) else (False if all(t is False for t in ts) else None)
+    if isinstance(e, ast.Compare) and len(e.ops) == 1 and isinstance(e.left, ast.Constant):
+        op, r, a = e.ops[0], e.comparators[0], e.left.value
+        if isinstance(r, ast.Constant):
+            b = r.value
+            if isinstance(op, (ast.Is, ast.IsNot)):
+                if a is None or b is None or isinstance(a, bool) or isinstance(b, bool):
+                    same = (a is b) if (a is None or b is None or (isinstance(a, bool) and isinstance(b, bool))) else False
+                    return same if isinstance(op, ast.Is) else not same
+                return None
+            f = _CMP.get(type(op))
+            if f is None:
+                return None
+            if isinstance(op, (ast.Eq, ast.NotEq)) or (isinstance(a, (int, float)) and isinstance(b, (int, float)) and not isinstance(a, bool) and not isinstance(b, bool)) \
+                    or (isinstance(a, str) and isinstance(b, str)):
+                return bool(f(a, b))
+            return None
+        if isinstance(op, (ast.In, ast.NotIn)) and isinstance(r, (ast.Tuple, ast.List, ast.Set)) and all(isinstance(x, ast.Constant) for x in r.elts):
+            inside = any(type(x.value) is type(a) and x.value == a for x in r.elts) or any(x.value == a for x in r.elts)
+            return inside if isinstance(op, ast.In) else not inside
+    return None
+
+
+class _FoldTests(ast.NodeTransformer):
+    def __init__(self):
+        self.n = 0
+
+    def visit_If(self, node: ast.If):
+        self.generic_visit(node)
+        t = _const_truth(node.test)
+        if t is None:
+            return node
+        self.n += 1
+        keep = node.body if t else node.orelse
+        return keep or [ast.copy_location(ast.Pass(), node)]
+
+    def visit_IfExp(self, node: ast.IfExp):
+        self.generic_visit(node)
+        t = _const_truth(node.test)
+        if t is None:
+            return node
+        self.n += 1
+        return node.body if t else node.orelse
+
+
+def fold_constant_tests(fn: ast.AST) -> int:
+    """Branches whose test is made of literals only are decided where they stand (dead arms dropped)."""
+    f = _FoldTests()
+    f.visit(fn)
+    return f.n
+
+
 def desugar_after_inlining(trees: Dict[str, ast.Module]) -> int:
     """Rewrites that become possible once helper calls have been spelled out (literal method / attribute names)."""
     n = 0
@@ -1438,6 +1665,11 @@ def desugar_after_inlining(trees: Dict[str, ast.Module]) -> int:
         fns = [x for x in ast.walk(tree) if isinstance(x, (ast.FunctionDef, ast.AsyncFunctionDef))]
         for fn in fns:
             n += _desugar_literal_dict_loops(fn)
+        ft = _FoldTests()
+        ft.visit(tree)
+        n += ft.n
+        for fn in fns:
+            n += _propagate_attr_aliases(fn)
         src_has = any(isinstance(x, (ast.Name, ast.Attribute)) and getattr(x, "id", getattr(x, "attr", "")) in ("methodcaller", "getattr") for x in ast.walk(tree))
         if not src_has:
             continue
